@@ -2,14 +2,16 @@
 """T (translator): a small C-subset -> Lean 4 translator for pure integer code of hawk.
 
 usage: c2lean.py <out.lean> <spec...>        (HAWK_REPO selects the tree; default /repo)
-       c2lean.py --prop C20|C19|C16|C11   (the spec sets of the checks, written to lean/HawkModel/Gen/CFuns*.lean)
+       c2lean.py --prop C20|C19|C16|C15|C13|C11   (the spec sets of the checks, written to lean/HawkModel/Gen/CFuns*.lean)
 
 spec  ::=  <leanName>=<file.c>:<function>[:<selector>][;opt=val]...
 selector (default: the whole function body)
     rhs:<lvalue>:<k>    right-hand side of the k-th (0-based, source order) plain assignment `<lvalue> = e`
                         inside the function; <lvalue> is `x` or `p->f`
+    cassign:<lvalue>:<k> value computed by the k-th compound assignment `<lvalue> op= e` (op in + - *; the old value of
+                        <lvalue> is an input; a bit-field's truncation on store is NOT applied)
     cond:<k>            condition of the k-th IfStmt of the function (pre-order), as a Bool
-    init:<var>          initialiser of the (only) local declaration of <var>
+    init:<var>[:<k>]    initialiser of the (only, or k-th) local declaration of <var>
     ret:<k>             value of the k-th `return e;` of the function (pre-order)
     stmt:<Kind>:<k>     the k-th statement of clang kind <Kind> (IfStmt, DoStmt, CompoundStmt ...) of the function
                         (pre-order); result = the variables it assigns that were declared outside of it
@@ -18,12 +20,14 @@ options
     abstract=a,b        locals whose initialiser is outside the subset (tagged-pointer decoding ...) become inputs
                         of the local's declared type
     ignore=f,g          calls `f(...);` used as a statement (error reporting) are dropped
+    opaquecall=f        the result of a call through the function-pointer field f (`p->style->f(...)`) is an input `call_f`
     call=cname          calls to the C function cname are translated to the Lean def generated earlier in this
                         run for the whole function cname (integer arguments only)
 
 What comes out: one `def` per spec in namespace Hawk.Gen.C, core Lean only.
     unsigned w-bit  -> Nat, every + - * << unary- ~ followed by an explicit `% 2^w` (literal modulus)
-    signed w-bit    -> Int, every + - * unary- wrapped two's-complement `(x + 2^(w-1)) % 2^w - 2^(w-1)`
+    signed w-bit    -> Int, every + - * unary- wrapped two's-complement `(x + 2^(w-1)) % 2^w - 2^(w-1)`;
+                       & | ^ of int only on provably non-negative operands (constants, widened unsigned values): computed on Nat
     integer conversions are the ImplicitCastExpr/CStyleCastExpr(IntegralCast) nodes of clang's typed AST
     constant subtrees (literals, sizeof, casts, operators, enumeration constants) are folded with C semantics at
     their AST type; values of enumeration constants and sizeof(struct ...) are evaluated by clang itself (read back
@@ -214,6 +218,10 @@ def lvalue_text(n):
         b = strip(n["inner"][0])
         if b.get("kind") == "DeclRefExpr":
             return b["referencedDecl"]["name"] + "->" + n["name"]
+    if k == "ArraySubscriptExpr":
+        b = strip(n["inner"][0])
+        if b.get("kind") == "DeclRefExpr":
+            return b["referencedDecl"]["name"] + "[]"      # any element of the array: usable with rhs: only
     return None
 
 
@@ -442,6 +450,11 @@ class Tr:
                 if op in ("&", "|", "^"):
                     return "(%s %s %s)" % (a, {"&": "&&&", "|": "|||", "^": "^^^"}[op], b)
             else:
+                if op in ("&", "|", "^"):
+                    nn = self.nat_of(n)
+                    if nn is None:
+                        self.fail("'%s' on signed operands that are not provably non-negative" % op)
+                    return "(Int.ofNat %s)" % nn
                 if op in ("+", "-", "*"):
                     return self.wrap("(%s %s %s)" % (a, op, b), t)
                 if op == "/":
@@ -453,6 +466,9 @@ class Tr:
             callee = strip(n["inner"][0])
             while callee.get("kind") == "ImplicitCastExpr":
                 callee = strip(callee["inner"][0])
+            if callee.get("kind") == "MemberExpr" and callee.get("name") in self.opts.get("opaquecall", []):
+                # a call through the named function-pointer field: its result is an input of the call's type
+                return self.use_field("call", callee["name"], need_itype(n, "result of the opaque call"))
             nm = callee.get("referencedDecl", {}).get("name")
             if callee.get("kind") != "DeclRefExpr" or nm not in self.registry or nm not in self.opts.get("call", []):
                 self.fail("call of '%s' (not listed with call=, or not translated before)" % nm)
@@ -467,6 +483,30 @@ class Tr:
         if k == "UnaryExprOrTypeTraitExpr":
             self.fail("%s that could not be folded" % n.get("name"))
         self.fail("expression of kind %s" % k)
+
+    def nat_of(self, n):
+        """Nat text of a signed expression that is provably non-negative (a non-negative constant, a widening cast of an
+        unsigned value, or & | ^ of such), else None"""
+        t = itype(n)
+        if t is None:
+            return None
+        v = self.cval(n)
+        if v is not None:
+            return str(v) if v >= 0 else None
+        k = n.get("kind")
+        if k == "ParenExpr":
+            return self.nat_of(n["inner"][0])
+        if k in ("ImplicitCastExpr", "CStyleCastExpr") and n.get("castKind") == "IntegralCast":
+            it = itype(n["inner"][0])
+            if it is not None and it[0] == "U" and (it[1] < t[1] or (t[0] == "U" and it[1] <= t[1])):
+                return self.expr(n["inner"][0])
+            return None
+        if k == "BinaryOperator" and n.get("opcode") in ("&", "|", "^") and t[0] == "S":
+            a, b = self.nat_of(n["inner"][0]), self.nat_of(n["inner"][1])
+            if a is None or b is None:
+                return None
+            return "(%s %s %s)" % (a, {"&": "&&&", "|": "|||", "^": "^^^"}[n["opcode"]], b)
+        return None
 
     # ---- conditions: Lean Prop (decidable)
     def cond(self, n):
@@ -587,6 +627,30 @@ class Tr:
                 return nm, t, self.wrap("(%s + 1)" % a, t)
             return nm, t, self.wrap("(%s + %d - 1)" % (a, 1 << t[1]), t) if t[0] == "U" else self.wrap("(%s - 1)" % a, t)
         return None
+
+    def compound_value(self, s):
+        """value computed by `lv op= e` (lv a variable or p->f, read as an input), converted to lv's type"""
+        t = need_itype(s["inner"][0], "assigned lvalue")
+        crt = s.get("computeResultType") or {}
+        ct = parse_type(crt.get("desugaredQualType") or crt.get("qualType") or "")
+        if ct is None:
+            self.fail("compound assignment without an integer computation type")
+        op = s["opcode"][:-1]
+        r = s["inner"][1]
+        if op == ">>" and t[0] == "U" and ct[0] == "S" and t[1] < ct[1]:
+            sh = self.cval(r)
+            if sh is None or sh < 0 or sh >= ct[1]:
+                self.fail("compound shift needs a constant in-range amount")
+            return self.conv("(Int.ofNat (%s >>> %d))" % (self.expr(s["inner"][0]), sh), ct, t), t
+        a = self.conv(self.expr(s["inner"][0]), t, ct)
+        if op not in ("+", "-", "*") or need_itype(r, "operand") != ct:
+            self.fail("compound assignment %s= outside the subset for this selector" % op)
+        b = self.expr(r)
+        if ct[0] == "U" and op == "-":
+            v = self.wrap("(%s + %d - %s)" % (a, 1 << ct[1], b), ct)
+        else:
+            v = self.wrap("(%s %s %s)" % (a, op, b), ct)
+        return self.conv(v, ct, t), t
 
     def seq(self, stmts, tail):
         """Lean text for: stmts; then `tail()` when control falls off the end"""
@@ -846,7 +910,7 @@ def parse_spec(spec):
         k, v = o.split("=", 1)
         opts.setdefault(k, []).extend(x for x in v.split(",") if x)
     for k in opts:
-        if k not in ("fuel", "abstract", "ignore", "call"):
+        if k not in ("fuel", "abstract", "ignore", "call", "opaquecall"):
             raise Unsupported("unknown option '%s' in spec '%s'" % (k, spec))
     return m.group(1), m.group(2), m.group(3), m.group(4), opts
 
@@ -910,6 +974,14 @@ def translate(repo, spec, registry):
             text = tr.expr(e)
             rty = lean_ty(t)
             kind = "right-hand side of assignment #%d to %s" % (i, parts[1])
+        elif parts[0] == "cassign" and len(parts) == 3:
+            hits = [x for x in walk(body) if x.get("kind") == "CompoundAssignOperator" and lvalue_text(x["inner"][0]) == parts[1]]
+            i = int(parts[2])
+            if i >= len(hits):
+                raise Unsupported("%s: only %d compound assignments to %s" % (where, len(hits), parts[1]))
+            text, t = tr.compound_value(hits[i])
+            rty = lean_ty(t)
+            kind = "value stored by compound assignment #%d to %s" % (i, parts[1])
         elif parts[0] == "cond" and len(parts) == 2:
             hits = [x for x in walk(body) if x.get("kind") == "IfStmt"]
             i = int(parts[1])
@@ -918,8 +990,12 @@ def translate(repo, spec, registry):
             text = "decide %s" % tr.cond(hits[i]["inner"][0])
             rty = "Bool"
             kind = "condition of if #%d" % i
-        elif parts[0] == "init" and len(parts) == 2:
+        elif parts[0] == "init" and len(parts) in (2, 3):
             hits = [x for x in walk(body) if x.get("kind") == "VarDecl" and x.get("name") == parts[1]]
+            if len(parts) == 3:
+                if int(parts[2]) >= len(hits):
+                    raise Unsupported("%s: only %d declarations of %s" % (where, len(hits), parts[1]))
+                hits = [hits[int(parts[2])]]
             if len(hits) != 1:
                 raise Unsupported("%s: %d declarations of %s" % (where, len(hits), parts[1]))
             init = [c for c in hits[0].get("inner", []) if isinstance(c, dict) and "kind" in c and not c["kind"].endswith("Attr")]
@@ -1043,6 +1119,20 @@ SPECS = {
         "xmaInitRound=lib/xma.c:hawk_xma_init:rhs:zonesize:0",
         "xmaInitMin=lib/xma.c:hawk_xma_init:stmt:IfStmt:1",
         "xmaInitBdec=lib/xma.c:hawk_xma_init:rhs:xma->bdec:0;call=szlog2",
+        "xmaFreeNs=lib/xma.c:hawk_xma_free:init:ns",
+        "xmaFreeBs=lib/xma.c:hawk_xma_free:init:bs",
+        "xmaFreeBoth=lib/xma.c:hawk_xma_free:cassign:x->size:0",
+        "xmaFreeNext=lib/xma.c:hawk_xma_free:cassign:blk->size:0",
+        "xmaFreePrev=lib/xma.c:hawk_xma_free:cassign:x->size:1",
+        "xmaTakeRem=lib/xma.c:alloc_from_freelist:rhs:rem:0",
+        "xmaTakeSplit=lib/xma.c:alloc_from_freelist:cond:1",
+        "xmaTakeYSize=lib/xma.c:alloc_from_freelist:rhs:y->size:0",
+        "xmaGrowReq=lib/xma.c:_realloc_merge:rhs:req:0",
+        "xmaGrowRem=lib/xma.c:_realloc_merge:rhs:rem:0",
+        "xmaGrowYSize=lib/xma.c:_realloc_merge:rhs:y->size:0",
+        "xmaShrinkRem=lib/xma.c:_realloc_merge:init:rem:1",
+        "xmaShrinkYSizeMerge=lib/xma.c:_realloc_merge:rhs:y->size:1",
+        "xmaShrinkYSize=lib/xma.c:_realloc_merge:rhs:y->size:2",
     ]),
     "C19": ("CFunsArr.lean", True, [
         "arrInsTooFar=lib/arr.c:hawk_arr_insert:cond:0",
@@ -1060,6 +1150,11 @@ SPECS = {
         "arrHeapRight=lib/arr.c:sift_down:rhs:right:0",
         "arrHeapHasRight=lib/arr.c:sift_down:cond:1",
         "arrHeapPick=lib/arr.c:sift_down:rhs:child:0",
+        "arrDelOut=lib/arr.c:hawk_arr_delete:cond:0",
+        "arrDelClamp=lib/arr.c:hawk_arr_delete:stmt:IfStmt:1",
+        "arrDelNone=lib/arr.c:hawk_arr_delete:cond:2",
+        "arrUplOut=lib/arr.c:hawk_arr_uplete:cond:0",
+        "arrUplClamp=lib/arr.c:hawk_arr_uplete:stmt:IfStmt:1",
     ]),
     "C16": ("CFunsHtb.lean", False, [
         "htbInitCapa=lib/htb.c:hawk_htb_init:stmt:IfStmt:0",
@@ -1068,6 +1163,30 @@ SPECS = {
         "htbInitThresholdFloor=lib/htb.c:hawk_htb_init:cond:3",
         "htbReorgNewCapa=lib/htb.c:reorganize:rhs:new_capa:2",
         "htbReorgThreshold=lib/htb.c:reorganize:rhs:htb->threshold:1",
+        "htbIdxSearch=lib/htb.c:hawk_htb_search:rhs:hc:0;opaquecall=hasher",
+        "htbIdxReorg=lib/htb.c:reorganize:rhs:hc:0;opaquecall=hasher",
+        "htbIdxInsert=lib/htb.c:insert:rhs:hc:0;opaquecall=hasher",
+        "htbIdxInsert2=lib/htb.c:insert:rhs:hc:1;opaquecall=hasher",
+        "htbIdxCbsert=lib/htb.c:hawk_htb_cbsert:rhs:hc:0;opaquecall=hasher",
+        "htbIdxCbsert2=lib/htb.c:hawk_htb_cbsert:rhs:hc:1;opaquecall=hasher",
+        "htbIdxDelete=lib/htb.c:hawk_htb_delete:rhs:hc:0;opaquecall=hasher",
+        "htbGrowTest=lib/htb.c:insert:cond:5",
+        "htbGrowTestCb=lib/htb.c:hawk_htb_cbsert:cond:4",
+    ]),
+    "C15": ("CFunsUtf8.lean", False, [
+        "utf8EncCont=lib/utf8.c:hawk_uc_to_utf8:rhs:utf8[]:0",
+        "utf8EncShift=lib/utf8.c:hawk_uc_to_utf8:cassign:uc:0",
+        "utf8EncFirst=lib/utf8.c:hawk_uc_to_utf8:rhs:utf8[]:1",
+    ]),
+    "C13": ("CFunsStrFn.lean", False, [
+        "subIdxDec=lib/fnc.c:hawk_fnc_substr:rhs:lindex:0",
+        "subIdxLo=lib/fnc.c:hawk_fnc_substr:stmt:IfStmt:4",
+        "subCntLo=lib/fnc.c:hawk_fnc_substr:stmt:IfStmt:3",
+        "subCntDefault=lib/fnc.c:hawk_fnc_substr:rhs:lcount:1",
+        "subIdxHiB=lib/fnc.c:hawk_fnc_substr:stmt:IfStmt:6",
+        "subCntHiB=lib/fnc.c:hawk_fnc_substr:stmt:IfStmt:7",
+        "subIdxHiU=lib/fnc.c:hawk_fnc_substr:stmt:IfStmt:10",
+        "subCntHiU=lib/fnc.c:hawk_fnc_substr:stmt:IfStmt:11",
     ]),
     "C11": ("CFunsCmp.lean", False, [
         "cmpEnsureNotEqual=lib/run.c:__cmp_ensure_not_equal;ignore=hawk_rtx_seterrnum",
